@@ -13,11 +13,54 @@ STUBS = ['Message::factory := abstract message (models/sess_msg.c): yields the h
          'f8Exception::format<..>, ostringstream := no text produced (what() == "")', 'GlobalLogger/SingleLogger::is_loggable := false; session loggers absent (null)',
          'std::chrono::system_clock::now := arbitrary non-decreasing instants', 'pthread_spin_* := uncontended; clock_nanosleep := returns at once; Connection::stop := recorded',
          'std::string out-of-line members, operator new, exceptions (typeinfo ancestry): models/cxx.c']
+# loops of the models and of the real code that every harness of this world can reach (bounds: typeinfo table rows, catch clauses, literal/string lengths, digits)
+US = ['vf_copy.0:18', 'vf_ti_match.0:140', '__vf_landing.0:6', 'x_strlen.0:20', 'x_memcmp.0:4', '_ZL4slenPKc.0:4', '_ZN4FIX89fast_atoiIjEET_PKcc.0:9',
+      'x__ZNKSt7__cxx1112basic_stringIcSt11char_traitsIcESaIcEE4findEPKcmm.0:12', 'x__ZNKSt7__cxx1112basic_stringIcSt11char_traitsIcESaIcEE4findEPKcmm.1:4']
 ASSUME = ['operator new never fails', 'the session has no persister, no loggers and no SessionConfig (_persist, _logger, _plogger, _sf null) unless a harness says otherwise',
           'Session/Connection objects are not constructed (constructors start threads): typed static storage with exactly the members read by the code under test set through compiled setters',
           'print/printnohb console paths are off (_control bits clear)']
 
-def build(ctx, name='sess_in.c'):
+def build(ctx, name='sess_in.c', roots=None):
     # sess_in.cpp #includes runtime/session.cpp and shims/sess_common.cpp: the latter's content enters the cache key through a define
     ll = ctx.build_ir('sess_in.cpp', 'cut', extra=['-DVF_DEP_HASH=0x' + file_hash(VERIF + '/shims/sess_common.cpp')])
-    return ctx.translate(ll, ROOTS, name, stubfiles=['common.stubs', 'sess.stubs'], models=['cxx.c', 'stubs.c', 'sess_env.c', 'sess_msg.c'], provided=PROVIDED + ['vf_gen_token'])
+    return ctx.translate(ll, roots or ROOTS, name, stubfiles=['common.stubs', 'sess.stubs'], models=['cxx.c', 'stubs.c', 'sess_env.c', 'sess_msg.c'], provided=PROVIDED + ['vf_gen_token'])
+
+# ---------------------------------------------------------------- native replay (real Session over libfix8.so + the repo's FIX4.2 unit-test schema)
+def replay_exe(ctx):
+    return ctx.native('sess_replay', ['replay/sess_replay.cpp'], flags=('-O1', '-I' + REPO + '/utests'),
+                      libs=['-L' + REPO + '/runtime/.libs', '-lfix8', '-L' + REPO + '/utests/.libs', '-lutest',
+                            '-Wl,-rpath,' + REPO + '/runtime/.libs', '-Wl,-rpath,' + REPO + '/utests/.libs'])
+
+def run_steps(ctx, steps):
+    """runs the native driver; returns (list of parsed step dicts, raw text)"""
+    import re as _re
+    r = sh([replay_exe(ctx)] + steps, cwd=ctx.work, timeout=60)
+    out = []
+    for line in r.stdout.splitlines():
+        if line.startswith('SID '):
+            out.append(dict(op='sid', **{k: int(v) for k, v in _re.findall(r'(\w+)=(\d+)', line)})); continue
+        m = _re.match(r'STEP (\w+) ret=(\d) thrown=(\d) events:(.*?) \| state=(\d+) recv=(\d+) send=(\d+) shutdown=(\d) sid=(.*?)>(.*?) delivered=(\d+)', line)
+        if not m: continue
+        ev = m.group(4)
+        sent = [dict(type=t, **dict(kv.split('=', 1) for kv in f.split(',') if '=' in kv)) for t, f in _re.findall(r'send:(\w+)\[(.*?)\]', ev)]
+        out.append(dict(op=m.group(1), ret=int(m.group(2)), thrown=int(m.group(3)), delivered=[int(x) for x in _re.findall(r'deliver:(\d+)', ev)], sent=sent,
+                        state=int(m.group(5)), recv=int(m.group(6)), send=int(m.group(7)), shutdown=int(m.group(8)), sid=(m.group(9), m.group(10)), ndelivered=int(m.group(11))))
+    return out, r.stdout.strip()[-600:].replace('\n', ' | ')
+
+def cstr(cx, key, n):
+    """counterexample bytes -> a CompID usable on the wire and on a command line (printable, no SOH/'='/','): bytes are mapped injectively per position"""
+    v = cx.get(key, [0, 0])
+    if not isinstance(v, list): v = [v]
+    v = (list(v) + [0, 0])[:n]
+    return ''.join(chr(ord('A') + (int(b) % 26)) if not (48 <= int(b) <= 57 or 65 <= int(b) <= 90 or 97 <= int(b) <= 122) else chr(int(b)) for b in v)
+
+def compids(cx, keys, lens):
+    """map the counterexample's CompID byte strings to wire strings preserving exactly their equality pattern"""
+    vals = []
+    for k, n in zip(keys, lens):
+        v = cx.get(k, [0, 0]); v = (list(v) + [0, 0])[:n]; vals.append(tuple(int(b) for b in v))
+    names = {}; out = []
+    for v in vals:
+        if v not in names: names[v] = 'ABCDEFGH'[len(names)] * len(v) if len(v) else ''
+        out.append(names[v])
+    return out
